@@ -131,6 +131,18 @@ fn emit_routes(out: &mut Out, inp: &Input, mask: &Option<Vec<bool>>) {
         } else {
             s.push_str(" VIAF -");
         }
+        // every cell once more through with_faces -> discard_faces -> with_faces (3D): the volume integral of the re-derived cell
+        if inp.dim == 3 {
+            let wf = vi.clone().with_faces();
+            let mut t = String::new();
+            let mut n = 0;
+            for c in wf.cells_iter() {
+                let c2 = c.clone().discard_faces().with_faces();
+                t.push_str(&format!(" {} {}", fx(c2.compute_cell_integral::<(), VolumeIntegral>(()).volume), c2.face_count() as i64 - c.face_count() as i64));
+                n += 1;
+            }
+            s.push_str(&format!(" VRT {}{}", n, t));
+        }
         // `build_voronoi_cells` twice into the SAME caller-kept buffers: the second call must append the same faces again and
         // leave the faces already stored untouched (bitwise), and return the same cells
         {
